@@ -177,7 +177,7 @@ trait SourceQueryDb: salsa::Database + zydeco_statics::query::TyckDb {
 #[derive(Clone)]
 pub struct CompilerSession {
     storage: Storage<Self>,
-    files: DashMap<PathBuf, SourceInput>,
+    files: Arc<DashMap<PathBuf, SourceInput>>,
     pending: std::sync::Arc<
         std::sync::Mutex<Option<std::sync::Arc<zydeco_statics::query::PendingParts>>>,
     >,
@@ -187,7 +187,7 @@ impl Default for CompilerSession {
     fn default() -> Self {
         Self {
             storage: Storage::default(),
-            files: DashMap::new(),
+            files: Arc::new(DashMap::new()),
             pending: std::sync::Arc::new(std::sync::Mutex::new(None)),
         }
     }
@@ -241,12 +241,13 @@ impl CompilerSession {
         &mut self, path: impl AsRef<Path>, text: String,
     ) -> Result<(), SourceLoadError> {
         let canonical = Self::path_identity(path.as_ref())?;
-        let input = self.files.get(&canonical).map(|entry| *entry).unwrap_or_else(|| {
-            let disk_text = std::fs::read_to_string(&canonical).ok();
-            let input = SourceInput::new(self, canonical.clone(), disk_text, None);
-            self.files.insert(canonical, input);
-            input
-        });
+        let input = match self.files.entry(canonical.clone()) {
+            | Entry::Occupied(entry) => *entry.get(),
+            | Entry::Vacant(entry) => {
+                let disk_text = std::fs::read_to_string(&canonical).ok();
+                *entry.insert(SourceInput::new(self, canonical, disk_text, None))
+            }
+        };
         if input.overlay(self).as_ref() != Some(&text) {
             input.set_overlay(self).to(Some(text));
         }
